@@ -295,6 +295,22 @@ func (p *textProgressBar) writeProgress(progress string) {
 	_ = writeAll(p.writer, data)
 }
 
+// getRatio returns the completed fraction of the current file, always within [0, 1],
+// whatever step and size values the peer reported.
+func (p *textProgressBar) getRatio() float64 {
+	if p.fileSize <= 0 {
+		return 1
+	}
+	ratio := float64(p.fileStep) / float64(p.fileSize)
+	if ratio < 0 {
+		return 0
+	}
+	if ratio > 1 {
+		return 1
+	}
+	return ratio
+}
+
 func (p *textProgressBar) showProgress() {
 	now := timeNowFunc()
 	if p.lastUpdateTime != nil && now.Sub(*p.lastUpdateTime) < 200*time.Millisecond {
@@ -302,17 +318,14 @@ func (p *textProgressBar) showProgress() {
 	}
 	p.lastUpdateTime = &now
 
-	percentage := "100%"
-	if p.fileSize != 0 {
-		percentage = fmt.Sprintf("%.0f%%", math.Round(float64(p.fileStep)*100.0/float64(p.fileSize)))
-	}
+	percentage := fmt.Sprintf("%.0f%%", math.Round(p.getRatio()*100.0))
 	total := convertSizeToString(float64(p.fileStep))
 	speed := p.recentSpeed.getSpeed(p.fileStep, &now)
 	speedStr := "--- B/s"
 	etaStr := "--- ETA"
 	if speed > 0 {
 		speedStr = fmt.Sprintf("%s/s", convertSizeToString(speed))
-		etaStr = fmt.Sprintf("%s ETA", convertTimeToString(math.Round(float64(p.fileSize-p.fileStep)/speed)))
+		etaStr = fmt.Sprintf("%s ETA", convertTimeToString(math.Max(0, math.Round(float64(p.fileSize-p.fileStep)/speed))))
 	}
 	progressText := p.getProgressText(percentage, total, speedStr, etaStr)
 
@@ -405,10 +418,7 @@ func (p *textProgressBar) getProgressBar(length int) string {
 		return ""
 	}
 	totalSize := length - 2
-	fullSize := totalSize
-	if p.fileSize != 0 {
-		fullSize = int(math.Round((float64(totalSize) * float64(p.fileStep)) / float64(p.fileSize)))
-	}
+	fullSize := int(math.Round(float64(totalSize) * p.getRatio()))
 	emptySize := totalSize - fullSize
 	if p.colorA == nil || p.colorB == nil {
 		return fmt.Sprintf("[\x1b[36m%s%s\x1b[0m]",
